@@ -176,6 +176,47 @@ def gen_scenario(rng):
     return {"kind": kind, "wrapper": wrapper, "rounds": rounds, "plan": plan, "waiting": rng.choice([0.02, 0.02, 0.005, 0.0]), "backend": backend}
 
 
+def execute_twin(sc, delay=0.01, timeout=8.0):
+    """two batching wrappers (each around its own stub) used at the same time — the solver holds a BatchingMutexSampler and a BatchingMutexEstimator
+    side by side: callers with even index call wrapper A, odd ones wrapper B, all released together.  Returns one (scenario, execution) pair per
+    wrapper, in the shape `oracle` expects."""
+    from queasars.circuit_evaluation.mutex_primitives import BatchingMutexEstimator, BatchingMutexSampler
+
+    kinds = [sc["kind"], sc["twin"]]
+    stubs = [make_stub(k, {}, delay, None) for k in kinds]
+    ws = [(BatchingMutexSampler if k == "sampler" else BatchingMutexEstimator)(st, waiting_duration=0.05) for k, st in zip(kinds, stubs)]
+    outcomes = []
+    for callers in sc["rounds"]:
+        res = [None] * len(callers)
+        barrier = threading.Barrier(len(callers))
+
+        def call(i, ids):
+            try:
+                barrier.wait(5)
+                r = ws[i % 2].run([make_pub(kinds[i % 2], j) for j in ids]).result()
+                res[i] = ["ok", [pr.metadata.get("id") for pr in r]]
+            except Exception as e:  # noqa: BLE001
+                res[i] = ["exc", type(e).__name__, str(e)[:80]]
+
+        ths = [threading.Thread(target=call, args=(i, ids), daemon=True) for i, ids in enumerate(callers)]
+        for t in ths:
+            t.start()
+        end = time.time() + timeout
+        for t in ths:
+            t.join(max(0.0, end - time.time()))
+        outcomes.append([r if r is not None else ["hang"] for r in res])
+        if any(t.is_alive() for t in ths):
+            break
+    parts = []
+    for w in (0, 1):
+        sc_w = dict(sc, rounds=[[ids for i, ids in enumerate(callers) if i % 2 == w] for callers in sc["rounds"]], plan={})
+        ex_w = {"outcomes": [[o for i, o in enumerate(outs) if i % 2 == w] for outs in outcomes], "invocations": stubs[w].invocations,
+                "failed": sorted(stubs[w].failed), "max_in_use": stubs[w].max_in_use}
+        parts.append((sc_w, ex_w))
+        _STUBS.pop(id(stubs[w]), None)
+    return parts
+
+
 def execute(sc, waiting=None, delay=0.01, timeout=8.0):
     waiting = sc.get("waiting", 0.02) if waiting is None else waiting
     from queasars.circuit_evaluation.mutex_primitives import BatchingMutexEstimator, BatchingMutexSampler, MutexEstimator, MutexSampler
@@ -278,6 +319,19 @@ def run_wrapper_level(ctx, prop, n_quick=25, n_thorough=400):
         {"kind": "estimator", "wrapper": "batching", "rounds": [[[1, 2, 3]], [[4], [5, 6], [7]]], "plan": {}, "backend": {"max_circuits": 2, "callable": True}},
     ]
     scenarios = fixed + [gen_scenario(rng) for _ in range(ctx.n(n_quick, n_thorough))]
+    # two batching wrappers in use at the same time (sampler + estimator, or two of a kind)
+    twins = [{"kind": "sampler", "twin": "estimator", "wrapper": "batching", "rounds": [[[1], [2], [3, 4], [5]], [[6, 7], [8]]], "plan": {}},
+             {"kind": "estimator", "twin": "estimator", "wrapper": "batching", "rounds": [[[1, 2], [3], [4], [5, 6]], [[7], [8], [9]]], "plan": {}}]
+    for sc in twins[: ctx.n(2, 2)] * ctx.n(1, 6):
+        if ctx.out_of_time() or len(ctx.violations) >= 5:
+            break
+        ctx.case({"wrapper_level": sc}, nontrivial=True, tags=["wrapper-level", "wrapper:two-batching-wrappers-at-once"])
+        for sc_w, ex_w in execute_twin(sc):
+            for p, what in oracle(sc_w, ex_w):
+                if p == prop or (prop == "C03" and p == "C06"):
+                    ctx.violate(what + " [two batching wrappers used at the same time]", {"wrapper_level": sc}, ex_w, key=f"{prop}:twin:{what[:50]}")
+                else:
+                    other[p] = other.get(p, 0) + 1
     for sc in scenarios:
         if ctx.out_of_time() or len(ctx.violations) >= 5:
             break
@@ -308,6 +362,13 @@ def run_wrapper_level(ctx, prop, n_quick=25, n_thorough=400):
 
 
 def replay_wrapper_level(ctx, prop, sc):
+    if sc.get("twin"):
+        for sc_w, ex_w in execute_twin(sc):
+            for p, what in oracle(sc_w, ex_w):
+                if p == prop or (prop == "C03" and p == "C06"):
+                    ctx.violate(what + " [two batching wrappers used at the same time]", {"wrapper_level": sc}, ex_w, key=f"{prop}:twin:{what[:50]}")
+        ctx.case({"wrapper_level": sc}, tags=["replay"])
+        return
     ex = execute(sc)
     for p, what in oracle(sc, ex):
         if p == prop or (prop == "C03" and p == "C06"):
